@@ -33,14 +33,14 @@ ENV.update(GOFLAGS="-mod=mod", GOPROXY="off", GOSUMDB="off", GOTOOLCHAIN="local"
 # runs per tier: plain = simulated runs on the plain build, race = runs on the
 # race build, det = runs repeated in a second process to compare event-log digests.
 PROPS = {
-    "C17": dict(engine="codecsim", quick=dict(plain=600000, race=0, det=2000), thorough=dict(plain=12000000, race=0, det=20000)),
-    "C06": dict(engine="muxsim", quick=dict(plain=60000, race=0, det=300), thorough=dict(plain=1000000, race=20000, det=2000)),
-    "C13": dict(engine="muxsim", quick=dict(plain=40000, race=6000, det=300), thorough=dict(plain=800000, race=100000, det=2000)),
-    "C15": dict(engine="muxsim", quick=dict(plain=60000, race=0, det=300), thorough=dict(plain=1500000, race=10000, det=2000)),
-    "C10": dict(engine="muxsim", quick=dict(plain=12000, race=0, det=100), thorough=dict(plain=300000, race=10000, det=1000)),
-    "C11": dict(engine="registrysim", quick=dict(plain=4000, race=0, det=60), thorough=dict(plain=120000, race=0, det=500)),
-    "C12": dict(engine="registrysim", quick=dict(plain=6000, race=1500, det=60), thorough=dict(plain=150000, race=30000, det=500)),
-    "C16": dict(engine="registrysim", quick=dict(plain=8000, race=0, det=60), thorough=dict(plain=200000, race=0, det=500)),
+    "C17": dict(engine="codecsim", quick=dict(plain=600000, race=0, det=2000), thorough=dict(plain=40000000, race=0, det=20000)),
+    "C06": dict(engine="muxsim", quick=dict(plain=60000, race=0, det=300), thorough=dict(plain=3000000, race=40000, det=2000)),
+    "C13": dict(engine="muxsim", quick=dict(plain=40000, race=6000, det=300), thorough=dict(plain=1500000, race=200000, det=2000)),
+    "C15": dict(engine="muxsim", quick=dict(plain=60000, race=0, det=300), thorough=dict(plain=5000000, race=20000, det=2000)),
+    "C10": dict(engine="muxsim", quick=dict(plain=12000, race=0, det=100), thorough=dict(plain=1000000, race=30000, det=1000)),
+    "C11": dict(engine="registrysim", quick=dict(plain=4000, race=0, det=60), thorough=dict(plain=300000, race=0, det=500)),
+    "C12": dict(engine="registrysim", quick=dict(plain=6000, race=1500, det=60), thorough=dict(plain=400000, race=60000, det=500)),
+    "C16": dict(engine="registrysim", quick=dict(plain=8000, race=0, det=60), thorough=dict(plain=1000000, race=0, det=500)),
 }
 
 COMPONENTS_CODECSIM = {
@@ -473,7 +473,9 @@ def check(prop, tier, seed):
         path = os.path.join(OUTDIR, "replays", name)
         if v.get("scenario") is not None and v.get("build", "plain") == "plain":
             json.dump(v, open(path, "w"))
-            recs, err, rc = one_shot(binary, prop, "shrink", dict(VERIF_REPLAY=path, VERIF_BUDGET="60"), timeout=180)
+            # minimisation budget: generous for the first few distinct violations of a batch, short afterwards
+            budget = 40 if len(reported) < 3 else 8
+            recs, err, rc = one_shot(binary, prop, "shrink", dict(VERIF_REPLAY=path, VERIF_BUDGET=str(budget)), timeout=budget * 3 + 30)
             for r in recs:
                 if r.get("type") == "shrunk":
                     v = r["replay"]
